@@ -45,6 +45,24 @@ def truth_at(ev: Evaluator, v, env: Dict[str, float]) -> Optional[bool]:
     return None
 
 
+def value_at(v, env: Dict[str, float]):
+    """The alternative of a guarded value selected at a numeric sample point of its guards' symbols (guards that cannot
+    be evaluated there leave the value guarded)."""
+    while isinstance(v, Cond):
+        t = v.test
+        if t.rf is None:
+            return v
+        try:
+            x = t.rf.evalf(env)
+        except (KeyError, ZeroDivisionError, ValueError):
+            return v
+        pol = {'nz': x != 0, 'pos': x > 0, 'nonneg': x >= 0}.get(t.kind)
+        if pol is None:
+            return v
+        v = v.a if pol else v.b
+    return v
+
+
 def reachable_leaves(tree, env: Dict[str, float]) -> List[Leaf]:
     if isinstance(tree, Leaf):
         return [tree]
